@@ -394,7 +394,9 @@ func (m *Machine) Dispose() {
 			return
 		}
 		// fmt.Println("dispose locals " + m.Id())
-		m.queueProcessing.Store(false)
+		// the queue lock gets released by doDispose, once mutations are being
+		// canceled (releasing it here let a 2nd transition start next to a running
+		// one)
 		m.unlockDisposed.Store(true)
 		m.doDispose(false)
 	}()
@@ -421,6 +423,9 @@ func (m *Machine) doDispose(force bool) {
 	if !m.disposing.CompareAndSwap(false, true) {
 		// already disposing
 		return
+	}
+	if m.unlockDisposed.Load() {
+		m.queueProcessing.Store(false)
 	}
 	if !force {
 		whenIdle := m.WhenQueueEnds()
